@@ -216,6 +216,25 @@ def run(ctx, prop, focus, n_hist, n_stall, stall_programs=1, n_istall=0):
             prog = poolmon.gen_program(rng, focus)
             plan = dict(pt, budget=rng.choice([20, 60, 150, 400]), cap=0.03)
             run_one(ctx, prop, inj, prog, "stall", rng.randrange(1 << 30), plan=plan)
+    # 2b. the retirement window: a worker parked at each line it executes (k-th hit 1..3) for the whole cap while the
+    #     controller idles for about the pool's timeout between tasks, so that submissions meet retiring workers
+    wmine = [pt for pt in mine if pt["role"] == "worker"]
+    for pt in wmine[:max(8, n_stall // 3)]:
+        if ctx.time_left() < 5:
+            break
+        prog = poolmon.gen_program_retirement_window(rng)
+        plan = dict(pt, budget=10 ** 9, cap=0.05)
+        hits0 = inj.hits
+        run_one(ctx, prop, inj, prog, "stall", rng.randrange(1 << 30), plan=plan)
+        ctx.count("retirement-window-histories")
+        if inj.hits > hits0:
+            ctx.count("retirement-window-stalls-hit")
+    for i in range(max(3, n_hist // 20)):
+        if ctx.time_left() < 5:
+            break
+        prog = poolmon.gen_program_retirement_window(rng)
+        run_one(ctx, prop, inj, prog, "yield", rng.randrange(1 << 30), p=rng.choice([0.05, 0.2, 0.5]))
+        ctx.count("retirement-window-histories")
     # 3. instruction-level stall sweep (preemption inside a source line, e.g. between the load and the store of `x += 1`)
     import jsonrpclib.threadpool as tpmod
     roles_of = {}
